@@ -122,25 +122,25 @@ theorem onUnpack_unregistered (reg : Registry) (p : List UInt8) (y : Bytes) (i :
 
 /-! ### `Append` as coded versus the functional `Xfer.append` -/
 
-theorem appendSt_all (reg : Registry) (cur ids : List UInt8) (hall : ∀ i ∈ ids, (reg i).isSome = true) :
-    appendSt reg cur ids = (cur ++ ids, decide ((cur ++ ids).length ≤ 255)) := by
+theorem appendLoop_all (reg : Registry) (cur ids : List UInt8) (hall : ∀ i ∈ ids, (reg i).isSome = true) :
+    appendLoop reg cur ids = some (cur ++ ids) := by
   induction ids generalizing cur with
-  | nil => simp [appendSt]
+  | nil => simp [appendLoop]
   | cons i is ih =>
     have hi := hall i (by simp)
     cases hr : reg i with
     | none => simp [hr] at hi
     | some f =>
-      simp only [appendSt, hr]
+      simp only [appendLoop, hr]
       rw [ih (cur ++ [i]) (fun j hj => hall j (by simp [hj]))]
       simp
 
-theorem appendSt_unknown (reg : Registry) (cur ids : List UInt8) (i : UInt8) (hi : i ∈ ids)
-    (hr : reg i = none) : (appendSt reg cur ids).2 = false := by
+theorem appendLoop_unknown (reg : Registry) (cur ids : List UInt8) (i : UInt8) (hi : i ∈ ids)
+    (hr : reg i = none) : appendLoop reg cur ids = none := by
   induction ids generalizing cur with
   | nil => simp at hi
   | cons j js ih =>
-    simp only [appendSt]
+    simp only [appendLoop]
     cases hj : reg j with
     | none => rfl
     | some f =>
@@ -150,25 +150,74 @@ theorem appendSt_unknown (reg : Registry) (cur ids : List UInt8) (i : UInt8) (hi
         · exact e
       exact ih (cur ++ [j]) hm
 
-/-- whatever happens, the pipe afterwards is the old pipe followed by a prefix of the requested ids,
-    all of them registered. -/
+/-- the loop completes only with every id registered, and then it appended exactly the ids. -/
+theorem appendLoop_some (reg : Registry) (cur ids p : List UInt8) (h : appendLoop reg cur ids = some p) :
+    p = cur ++ ids ∧ ∀ i ∈ ids, (reg i).isSome = true := by
+  by_cases hall : ∀ i ∈ ids, (reg i).isSome = true
+  · rw [appendLoop_all reg cur ids hall] at h
+    exact ⟨(Option.some.inj h).symm, hall⟩
+  · exfalso
+    have : ∃ i, i ∈ ids ∧ reg i = none := by
+      false_or_by_contra
+      rename_i hne
+      apply hall
+      intro i hi
+      cases hr : reg i with
+      | none => exact absurd ⟨i, hi, hr⟩ hne
+      | some f => rfl
+    obtain ⟨i, hi, hr⟩ := this
+    rw [appendLoop_unknown reg cur ids i hi hr] at h
+    cases h
+
+theorem appendSt_all (reg : Registry) (cur ids : List UInt8) (hall : ∀ i ∈ ids, (reg i).isSome = true) :
+    appendSt reg cur ids = if (cur ++ ids).length ≤ 255 then (cur ++ ids, true) else (cur, false) := by
+  simp only [appendSt, appendLoop_all reg cur ids hall]
+
+theorem appendSt_unknown (reg : Registry) (cur ids : List UInt8) (i : UInt8) (hi : i ∈ ids)
+    (hr : reg i = none) : appendSt reg cur ids = (cur, false) := by
+  simp only [appendSt, appendLoop_unknown reg cur ids i hi hr]
+
+/-- all-or-nothing: `Append` either returns nil having appended every id (all registered, total
+    length within 255), or returns an error and leaves the pipe exactly as it was. -/
+theorem appendSt_cases (reg : Registry) (cur ids : List UInt8) :
+    (appendSt reg cur ids = (cur ++ ids, true) ∧ (∀ i ∈ ids, (reg i).isSome = true) ∧
+      (cur ++ ids).length ≤ 255) ∨
+    (appendSt reg cur ids = (cur, false) ∧
+      ((∃ i ∈ ids, reg i = none) ∨ (cur ++ ids).length > 255)) := by
+  unfold appendSt
+  cases h : appendLoop reg cur ids with
+  | none =>
+    right
+    refine ⟨rfl, Or.inl ?_⟩
+    false_or_by_contra
+    rename_i hne
+    have hall : ∀ i ∈ ids, (reg i).isSome = true := by
+      intro i hi
+      cases hr : reg i with
+      | none => exact absurd ⟨i, hi, hr⟩ hne
+      | some f => rfl
+    rw [appendLoop_all reg cur ids hall] at h
+    cases h
+  | some p =>
+    obtain ⟨rfl, hall⟩ := appendLoop_some reg cur ids p h
+    by_cases hl : (cur ++ ids).length ≤ 255
+    · left; exact ⟨by simp only [hl, if_true], hall, hl⟩
+    · right; exact ⟨by simp only [hl, if_false], Or.inr (by omega)⟩
+
+/-- whatever happens, the pipe afterwards is the old pipe followed by a prefix of the requested ids
+    (all of them or none), all of them registered. -/
 theorem appendSt_extends (reg : Registry) (cur ids : List UInt8) :
     ∃ acc, (appendSt reg cur ids).1 = cur ++ acc ∧ acc <+: ids ∧ ∀ i ∈ acc, (reg i).isSome = true := by
-  induction ids generalizing cur with
-  | nil => exact ⟨[], by simp [appendSt]⟩
-  | cons j js ih =>
-    simp only [appendSt]
-    cases hj : reg j with
-    | none => exact ⟨[], by simp⟩
-    | some f =>
-      obtain ⟨acc, h1, h2, h3⟩ := ih (cur ++ [j])
-      refine ⟨j :: acc, by simp [h1], ?_, ?_⟩
-      · obtain ⟨t, ht⟩ := h2
-        exact ⟨t, by simp [← ht]⟩
-      · intro i hi
-        rcases List.mem_cons.1 hi with e | e
-        · subst e; simp [hj]
-        · exact h3 i e
+  rcases appendSt_cases reg cur ids with ⟨h, hall, _⟩ | ⟨h, _⟩
+  · exact ⟨ids, by rw [h], List.prefix_refl _, hall⟩
+  · exact ⟨[], by rw [h]; simp, List.nil_prefix, by simp⟩
+
+/-- `Append` never leaves a pipe longer than 255 that was not longer before. -/
+theorem appendSt_len (reg : Registry) (cur ids : List UInt8) (hc : cur.length ≤ 255) :
+    (appendSt reg cur ids).1.length ≤ 255 := by
+  rcases appendSt_cases reg cur ids with ⟨h, _, hl⟩ | ⟨h, _⟩
+  · rw [h]; exact hl
+  · rw [h]; exact hc
 
 /-- the call returns nil exactly when the functional model accepts, and then the pipes agree. -/
 theorem append_eq_appendSt (reg : Registry) (cur ids : List UInt8) :
@@ -180,9 +229,9 @@ theorem append_eq_appendSt (reg : Registry) (cur ids : List UInt8) :
     simp only [hall, if_true]
     by_cases hl : (cur ++ ids).length ≤ 255
     · have h2 : ¬ (cur ++ ids).length > 255 := by omega
-      rw [if_neg h2, decide_eq_true hl]; rfl
+      rw [if_neg h2, if_pos hl]; rfl
     · have h2 : (cur ++ ids).length > 255 := by omega
-      rw [if_pos h2, decide_eq_false hl]; rfl
+      rw [if_pos h2, if_neg hl]; rfl
   · have hf : ids.all (fun i => (reg i).isSome) = false := by simpa using hall
     obtain ⟨i, hi, hn⟩ := List.all_eq_false.1 hf
     have hr : reg i = none := by cases hr : reg i <;> simp_all
@@ -293,14 +342,47 @@ theorem addAll_extends (reg : Registry) (cur : List UInt8) (calls : List (List U
       · exact h5 i e
 
 theorem addAll_registered (reg : Registry) (cur : List UInt8) (calls : List (List UInt8))
-    (hall : ∀ c ∈ calls, ∀ i ∈ c, (reg i).isSome = true) : addAll reg cur calls = cur ++ calls.flatten := by
+    (hall : ∀ c ∈ calls, ∀ i ∈ c, (reg i).isSome = true) (hlen : (cur ++ calls.flatten).length ≤ 255) :
+    addAll reg cur calls = cur ++ calls.flatten := by
   induction calls generalizing cur with
   | nil => simp [addAll]
   | cons c cs ih =>
+    have hl1 : (cur ++ c).length ≤ 255 := by
+      simp only [List.flatten_cons, List.length_append] at hlen ⊢; omega
     have h1 := appendSt_all reg cur c (hall c (by simp))
-    have h2 := ih (cur ++ c) (fun d hd => hall d (by simp [hd]))
+    rw [if_pos hl1] at h1
+    have h2 := ih (cur ++ c) (fun d hd => hall d (by simp [hd])) (by simpa using hlen)
     simp only [addAll, List.foldl_cons, addXferPipe, h1] at h2 ⊢
     rw [h2]; simp
+
+/-- no sequence of `AddXferPipe` calls makes a pipe longer than 255. -/
+theorem addAll_len (reg : Registry) (cur : List UInt8) (calls : List (List UInt8)) (hc : cur.length ≤ 255) :
+    (addAll reg cur calls).length ≤ 255 := by
+  induction calls generalizing cur with
+  | nil => simpa [addAll] using hc
+  | cons c cs ih =>
+    simp only [addAll, List.foldl_cons]
+    exact ih (addXferPipe reg cur c) (appendSt_len reg cur c hc)
+
+theorem appendFrom_len (cur src : List UInt8) (hc : cur.length ≤ 255) : (appendFrom cur src).length ≤ 255 := by
+  unfold appendFrom
+  split
+  · exact hc
+  · rw [List.length_append]; omega
+
+/-- head of `handleCall`: with a request pipe within the limit the result is within the limit and is
+    the request's pipe, preceded by the earlier additions if (and only if) both fit. -/
+theorem callPipe_spec (out req : List UInt8) (hreq : req.length ≤ 255) :
+    (callPipe out req).length ≤ 255 ∧
+    callPipe out req = (if out.length + req.length > 255 then [] else out) ++ req := by
+  unfold callPipe appendFrom reset
+  by_cases h : out.length + req.length > 255
+  · simp only [h, if_true, List.length_nil, Nat.zero_add, List.nil_append]
+    have : ¬ req.length > 255 := by omega
+    simp only [this, if_false]
+    exact ⟨hreq, trivial⟩
+  · simp only [h, if_false]
+    exact ⟨by rw [List.length_append]; omega, trivial⟩
 
 /-- what the receiver reads back from `wirePipe p`: the announced number of ids. -/
 def learned (p : List UInt8) : List UInt8 :=
